@@ -81,6 +81,10 @@ class TupV:
 NONE = ('NONE',)
 
 
+def grouped_dim(axis_dim, u):
+    return sym('%s~grouped:%s' % (axis_dim[1], u[1]))
+
+
 def as_dim(v):
     if isinstance(v, IntV):
         if v.val is not None:
@@ -372,13 +376,19 @@ class Interp:
                 return TOP
             if isinstance(op, (ast.BitAnd, ast.BitOr, ast.Mult)) and l.mask and r.mask:
                 return TV(sh, None, True, (type(op).__name__, l.key, r.key))
+            if isinstance(op, (ast.Add, ast.Sub)):
+                doms = [t.dom for t in (l, r) if t.dom is not None and '~grouped:' in str(t.dom[1])]
+                if len(doms) == 1:
+                    return TV(sh, dom=doms[0])      # offset inside a group + start of the group: still a position in the grouped axis
             return TV(sh)
         if isinstance(l, TV) or isinstance(r, TV):
             t, o = (l, r) if isinstance(l, TV) else (r, l)
             if isinstance(op, ast.MatMult):
                 return TOP
             if isinstance(o, (IntV,)) or o is TOP:
-                # index arithmetic with a scalar keeps shape; the domain survives only +/- of known-safe offsets is NOT assumed
+                # index arithmetic with a scalar keeps shape; only a grouped-offset domain survives +/- (offset within the group)
+                if isinstance(op, (ast.Add, ast.Sub)) and t.dom is not None and '~grouped:' in str(t.dom[1]):
+                    return TV(t.shape, dom=t.dom)
                 return TV(t.shape)
             return TOP
         if isinstance(l, SizeV) or isinstance(r, SizeV) or isinstance(l, TupV) or isinstance(r, TupV):
@@ -568,7 +578,10 @@ class Interp:
                 if k >= len(dims) or dims[k][0] == 'batch':
                     return None, 0
                 self.check_domain(node, v, dims[k], 'index %s' % src(x)[:40])
-                out.extend(v.shape)
+                if isinstance(v.key, tuple) and v.key and v.key[0] == 'grouporder' and len(v.shape) == 1:
+                    out.append(grouped_dim(v.key[2], v.key[1]))     # the axis re-ordered so that equal groups are contiguous
+                else:
+                    out.extend(v.shape)
                 k += 1
                 continue
             return None, 0
@@ -788,6 +801,7 @@ class Interp:
         if ax is None:
             out = TV((u,))
             inv = TV(v.shape, dom=u)
+            orig = None
         else:
             a = norm_axis(ax, v)
             if a is None:
@@ -796,12 +810,12 @@ class Interp:
             orig = sh[a]
             sh[a] = u
             out = TV(sh)
-            inv = TV((orig,), dom=u)
+            inv = TV((orig,), dom=u, key=('inverse', u, orig))
         res = [out]
         if ri:
             res.append(inv)
         if rc:
-            res.append(TV((u,)))
+            res.append(TV((u,), key=('counts', u, orig)))
         return TupV(res) if len(res) > 1 else out
 
     def gather(self, c, inp, dimv, idx):
@@ -877,6 +891,8 @@ class Interp:
         if m in ('abs', 'sqrt', 'square', 'exp', 'log', 'sin', 'cos', 'clamp', 'clamp_', 'float', 'double', 'to', 'type', 'long', 'int',
                  'clone', 'detach', 'detach_', 'contiguous', 'cuda', 'cpu', 'requires_grad_', 'neg', 'sign', 'pow', 'type_as', 'bool',
                  'cumsum', 'flip', 'nan_to_num', 'tensor', 'rad2deg', 'half', 'softmax', 'log_prob_'):
+            if m == 'cumsum' and isinstance(recv.key, tuple) and recv.key and recv.key[0] == 'counts' and recv.key[2] is not None:
+                return TV(recv.shape, dom=grouped_dim(recv.key[2], recv.key[1]))
             if m in ('abs', 'sqrt', 'square', 'exp', 'log', 'sin', 'cos', 'neg', 'sign', 'pow', 'cumsum', 'nan_to_num', 'softmax'):
                 return TV(recv.shape)
             if m == 'flip':
@@ -977,7 +993,8 @@ class Interp:
             a = norm_axis(ax, recv) if ax is not None else None
             if a is None:
                 return TOP
-            idx = TV(recv.shape, dom=recv.shape[a] if recv.shape[a][0] == 'sym' else None)
+            gkey = ('grouporder',) + tuple(recv.key[1:]) if isinstance(recv.key, tuple) and recv.key and recv.key[0] == 'inverse' else None
+            idx = TV(recv.shape, dom=recv.shape[a] if recv.shape[a][0] == 'sym' else None, key=gkey)
             return idx if m == 'argsort' else TupV([TV(recv.shape), idx])
         if m == 'topk':
             kv = K('k', 0)
